@@ -3,8 +3,11 @@
 # checks, always restore /repo.  Prints one line per property.
 patch="$1"; tier="$2"; shift 2
 if [ -n "$(git -C /repo status --porcelain)" ]; then echo "/repo is dirty, refusing"; exit 2; fi
-git -C /repo apply "$(realpath "$patch")" || { echo "patch does not apply"; exit 2; }
-trap 'git -C /repo checkout -- . ; rm -f /verif/replays/*.seeded-run' EXIT
+save=$(mktemp -d /verif/.build/evidence-save.XXXXXX)
+cp -a /verif/evidence/. "$save"/
+git -C /repo apply "$(realpath "$patch")" || { echo "patch does not apply"; rm -rf "$save"; exit 2; }
+# always restore /repo and the evidence of the unchanged tree (evidence describes clean runs only)
+trap 'git -C /repo checkout -- . ; cp -a "$save"/. /verif/evidence/ ; rm -rf "$save"' EXIT
 for p in "$@"; do
   out=$(cd /verif && timeout 3000 ./check "$p" "$tier" 2>&1)
   rc=$?
